@@ -405,6 +405,9 @@ class Model(object):
             s = np.maximum(s, floor_val)
             S = LA.diagsvd(s, k, k)  # s from vector to matrix of correct shape
             self.model_jac = np.dot(U, np.dot(S, Vt))  # reconstruct J from new svd
+            # J has changed (in directions orthogonal to the sampled ones), and xopt need not lie in the span of the sampled
+            # directions (it is measured from xbase), so the constant term must be recomputed to keep interpolating
+            self.model_const = dg[0, :] - np.dot(self.model_jac, xopt)
 
         interp_error = 0.0
         if verbose:
